@@ -311,8 +311,18 @@ def object_header(num_type: int, length: int) -> bytes:
     return cls.type_name + b" " + str(length).encode("ascii") + b"\0"
 
 
-def serializable_property(name: str, docstring: str | None = None) -> property:
-    """A property that helps tracking whether serialization is necessary."""
+def serializable_property(
+    name: str, docstring: str | None = None, clears: str | None = None
+) -> property:
+    """A property that helps tracking whether serialization is necessary.
+
+    Args:
+      name: Name of the property (stored in the attribute ``_<name>``)
+      docstring: Docstring of the property
+      clears: Name of a flag attribute that describes how the parsed value was
+        spelled (e.g. a ``-0000`` timezone) and no longer applies once a new
+        value is assigned
+    """
 
     def set(obj: "ShaFile", value: object) -> None:
         """Set the property value and mark the object as needing serialization.
@@ -322,6 +332,8 @@ def serializable_property(name: str, docstring: str | None = None) -> property:
           value: The value to set
         """
         setattr(obj, "_" + name, value)
+        if clears is not None:
+            setattr(obj, clears, False)
         obj._needs_serialization = True
 
     def get(obj: "ShaFile") -> object:
@@ -1319,7 +1331,9 @@ class Tag(ShaFile):
         "The creation timestamp of the tag.  As the number of seconds since the epoch",
     )
     tag_timezone = serializable_property(
-        "tag_timezone", "The timezone that tag_time is in."
+        "tag_timezone",
+        "The timezone that tag_time is in.",
+        clears="_tag_timezone_neg_utc",
     )
     message = serializable_property("message", "the message attached to this tag")
 
@@ -2313,7 +2327,9 @@ class Commit(ShaFile):
     )
 
     commit_timezone = serializable_property(
-        "commit_timezone", "The zone the commit time is in"
+        "commit_timezone",
+        "The zone the commit time is in",
+        clears="_commit_timezone_neg_utc",
     )
 
     author_time = serializable_property(
@@ -2323,7 +2339,9 @@ class Commit(ShaFile):
     )
 
     author_timezone = serializable_property(
-        "author_timezone", "Returns the zone the author time is in."
+        "author_timezone",
+        "Returns the zone the author time is in.",
+        clears="_author_timezone_neg_utc",
     )
 
     encoding = serializable_property("encoding", "Encoding of the commit message.")
